@@ -12,11 +12,15 @@ import (
 func VerifH_SYS_C09() {
 	budget := verifParam("faults", 2)
 	b := &vbroker{budget: budget, allowConnect: true, allowDialErr: true, allowGarbage: true, stamp: true}
+	b.allowWriteErr = true
+	b.gateDial = verifParam("gatedial", 0) == 1
 	b.maxDials = 2*budget + 3
 	verifSetRand(100)
 	base := verifNondetDur("base")
 	max := verifNondetDur("max")
-	if verifSymbolic() {
+	if verifParam("concrete", 0) == 1 {
+		base, max = time.Second, 4*time.Second
+	} else if verifSymbolic() {
 		verifAssume(verifAnd(verifAnd(base >= 0, base <= 1<<40), verifAnd(max >= 0, max <= 1<<40)))
 	} else {
 		base, max = 50*time.Millisecond, 200*time.Millisecond
@@ -27,7 +31,10 @@ func VerifH_SYS_C09() {
 	}
 	cli, err := NewReconnectClient(b, WithReconnectWait(base, max), WithTimeout(10*unit))
 	verifAssert(err == nil, "SYS.new_client")
-	stopKind := verifChoice("stop", 4) // 0 none, 1 Disconnect, 2 cancel the first context, 3 cancel, then Disconnect
+	stopKind := 0
+	if verifParam("nostop", 0) == 0 {
+		stopKind = verifChoice("stop", 4) // 0 none, 1 Disconnect, 2 cancel the first context, 3 cancel, then Disconnect
+	}
 	stopAny := verifParam("stopany", 0) == 1
 	ctx, cancel := context.WithCancel(context.Background())
 	defer cancel()
@@ -43,7 +50,7 @@ func VerifH_SYS_C09() {
 			}
 			stopCalled = true
 			verifLock()
-			dialsAtStop = b.dials
+			dialsAtStop = b.dialStarts
 			verifUnlock()
 			verifEvent("app:stop")
 			switch stopKind {
@@ -72,7 +79,7 @@ func VerifH_SYS_C09() {
 			verifAssert(stopped, "C09.disconnect_returns")
 		}
 		if stopKind == 1 && stopped {
-			verifAssert(b.dials == dialsAtStop, "C09.no_dial_after_disconnect")
+			verifAssert(b.dialStarts == dialsAtStop, "C09.no_dial_after_disconnect")
 		}
 		if stopKind >= 2 && stopped {
 			verifAssert(connectReturned, "C09.connect_returns_after_cancel")
@@ -82,7 +89,7 @@ func VerifH_SYS_C09() {
 		}
 		if stopKind >= 2 && stopped && !connected {
 			// cancelled before the first connection succeeded: never dials again
-			verifAssert(b.dials == dialsAtStop, "C09.no_dial_after_cancel_before_first_connection")
+			verifAssert(b.dialStarts == dialsAtStop, "C09.no_dial_after_cancel_before_first_connection")
 		}
 		// every connection begins with exactly one CONNECT carrying the same id and options
 		for ci := range b.conns {
@@ -147,5 +154,10 @@ func VerifH_SYS_C09() {
 	verifEvent("app:connect-returned")
 	if connErr == nil {
 		_ = cli.Publish(context.Background(), &Message{Topic: "t", QoS: QoS1, Payload: []byte{1}})
+		if verifParam("latecut", 0) == 1 {
+			// the peer closes the established connection once everything is idle
+			verifPause()
+			b.cutIdle()
+		}
 	}
 }
